@@ -26,6 +26,7 @@ struct SimFile
   int fail_open;
   long short_at;
   unsigned long opens, closes, delivered, shorts, failed_opens;
+  int handle_limit;
 } sf;
 // a distinguishable, never dereferenced handle
 FILE *const SIM_HANDLE = (FILE *)(void *)&sf;
@@ -33,6 +34,7 @@ FILE *const SIM_HANDLE = (FILE *)(void *)&sf;
 int alloc_window = 0;
 long alloc_fail_at = -1;
 unsigned long alloc_seen = 0, alloc_failed = 0;
+size_t alloc_last_size = 0;
 }  // namespace
 
 extern "C" {
@@ -51,9 +53,9 @@ void simio_set_file(const char *path, const unsigned char *data, size_t n)
   sf.data = data;
   sf.n = n;
   sf.pos = 0;
-  sf.open = false;
 }
 void simio_fail_open(int on) { sf.fail_open = on; }
+void simio_set_handle_limit(int n) { sf.handle_limit = n; }
 void simio_short_read_at(long offset) { sf.short_at = offset; }
 unsigned long simio_stats(int which)
 {
@@ -72,6 +74,11 @@ FILE *__wrap_fopen(const char *path, const char *mode)
     if (sf.fail_open) {
       sf.failed_opens++;
       errno = ENOENT;
+      return nullptr;
+    }
+    if (sf.handle_limit > 0 && (long)(sf.opens - sf.closes) >= sf.handle_limit) {
+      sf.failed_opens++;
+      errno = EMFILE;  // the process has run out of descriptors: every earlier open must have been closed
       return nullptr;
     }
     sf.open = true;
@@ -135,10 +142,14 @@ size_t __wrap_fread(void *buf, size_t size, size_t nmemb, FILE *f)
 void simalloc_window(int on) { alloc_window = on; }
 void simalloc_fail_at(long nth) { alloc_fail_at = nth; }
 unsigned long simalloc_stats(int which) { return which == 0 ? alloc_seen : alloc_failed; }
+size_t simalloc_last_size(void) { return alloc_last_size; }
 
 int __wrap_posix_memalign(void **out, size_t align, size_t size)
 {
   if (alloc_window) {
+    alloc_last_size = size;
+    if (size >= ((size_t)1 << 30))
+      return ENOMEM;  // the simulated machine has less than 1 GiB to give
     if ((long)alloc_seen++ == alloc_fail_at) {
       alloc_failed++;
       return ENOMEM;
@@ -149,6 +160,11 @@ int __wrap_posix_memalign(void **out, size_t align, size_t size)
 void *__wrap_malloc(size_t size)
 {
   if (alloc_window) {
+    alloc_last_size = size;
+    if (size >= ((size_t)1 << 30)) {
+      errno = ENOMEM;
+      return nullptr;
+    }
     if ((long)alloc_seen++ == alloc_fail_at) {
       alloc_failed++;
       errno = ENOMEM;
